@@ -234,6 +234,7 @@ func Sim(t *testing.T, body func(r *Run)) {
 		if budget > 0 && time.Since(gstats.start) > budget && !gstats.failing {
 			return
 		}
+		ResetCallIndex()
 		r := &Run{T: rt, Prop: Prop(), faults: map[string]*FaultCount{}, counters: map[string]int64{}, cells: map[string]map[string]bool{}}
 		defer r.finish()
 		body(r)
@@ -411,6 +412,24 @@ func (r *Run) Violation(rule, kfKey, format string, a ...any) {
 		r.T.Logf("KFKEY %s", kfKey)
 	}
 	r.T.Fatalf("VIOLATION rule=%s", rule)
+}
+
+// ViolationOrKnown is Violation for observations that leave the model in sync
+// (conformance checks): if kfKey names a listed known finding the hit is
+// counted and true is returned so that the caller can carry on; otherwise the
+// violation is reported.
+func (r *Run) ViolationOrKnown(rule, kfKey, format string, a ...any) bool {
+	prop := strings.SplitN(rule, "/", 2)[0]
+	if prop == r.Prop && !r.shadow {
+		if f := knownFinding(prop, kfKey); f != nil {
+			gstats.mu.Lock()
+			gstats.s.KnownHits[kfKey]++
+			gstats.mu.Unlock()
+			return true
+		}
+	}
+	r.Violation(rule, kfKey, format, a...)
+	return false
 }
 
 // Checkpoint ends the run quietly if a rule of another property fired since the
